@@ -34,14 +34,14 @@ for r in sorted(must,key=lambda r:(r['entry'].split('/')[0]!='seeded', r['entry'
         pf=glob.glob(V+'/selftest/'+e+'*.patch')
         if pf:
             files=', '.join(sorted(set(re.findall(r'^\+\+\+ [ab]/(\S+)',open(pf[0]).read(),re.M))))
-    verdict='VIOLATION (exit 1)' if r['exit']==1 and r['violations'] else ('**missed** (exit %d, %d undecided)'%(r['exit'],r['undecided']))
-    obs=', '.join('`%s`'%v for v in r['violations'][:3]) + (' …' if len(r['violations'])>3 else '')
+    verdict='VIOLATION (exit 1)' if r['exit']==1 and r.get('violations') else ('**missed** (exit %d, %d undecided)'%(r['exit'],r['undecided']))
+    obs=', '.join('`%s`'%v for v in r.get('violations',[])[:3]) + (' …' if len(r.get('violations',[]))>3 else '')
     out.append('| %s | %s | %s | %s | %s | %s |'%(e.replace('mutants/','').replace('seeded/',''), r['property'], files, head.replace('|','/'), verdict, obs))
 out.append('')
 out.append('Behaviour-preserving edits (must raise nothing): %d runs over %d patches, %d alarms.'%(len(neut), len(set(r['entry'] for r in neut)), sum(1 for r in neut if not r['ok'])))
 bad=[r for r in neut if not r['ok']]
 for r in bad:
-    out.append('* ALARM on %s under %s: %s'%(r['entry'], r['property'], ', '.join(r['violations'])))
+    out.append('* ALARM on %s under %s: %s'%(r['entry'], r['property'], ', '.join(r.get('violations',[]))))
 table='\n'.join(out)
 p=V+'/DESIGN.md'
 s=open(p).read()
